@@ -1,2 +1,658 @@
+"""C17 continued: R17.5 bounded raw accesses in Buffer, R17.6 debug-only obligations pushed to call
+sites, R17.7 sign typestate of UBig constructions, R17.9 bump allocator."""
+from . import mir, sym, guards
+from .mir import span_loc
+
+SELF = ('arg', 1)
+
+
+def fld(name, base=SELF):
+    return ('place', base, ('*', '.' + name))
+
+
+LEN = fld('len')
+CAP = fld('capacity')
+PTR = fld('ptr')
+
+
+def norm_rel(op, a, b):
+    """normalise to (op, a, b) with op in Lt/Le/Eq/Ne (swap sides for Gt/Ge)"""
+    if op == 'Gt':
+        return ('Lt', b, a)
+    if op == 'Ge':
+        return ('Le', b, a)
+    return (op, a, b)
+
+
+def rels_at(S, cfg, bb):
+    out = set()
+    for c in guards.constraints_at(S, cfg, bb):
+        if c[0] == 'rel':
+            out.add(norm_rel(c[1], sym.strip_casts(c[2]), sym.strip_casts(c[3])))
+    return out
+
+
+def slice_len_terms(arg):
+    """terms that denote the length of the slice argument `arg`"""
+    return {('un', 'PtrMetadata', arg), ('call', 'core::slice::<impl [T]>::len', (arg,))}
+
+
+def strip_bb(t):
+    """drop the bb component of call terms so that terms compare structurally"""
+    if not isinstance(t, tuple):
+        return t
+    if t and t[0] == 'call':
+        return ('call', t[1], tuple(strip_bb(a) for a in t[2]))
+    return tuple(strip_bb(x) if isinstance(x, tuple) else x for x in t)
+
+
+def is_len_of(t, arg):
+    t = strip_bb(t)
+    return t in slice_len_terms(arg)
+
+
+def writes_between(S, cfg, guard_dst, op_bb, places):
+    """assignments to any of `places` (terms) in blocks on a path guard_dst ->* op_bb (excluding the
+    op block's own later statements)"""
+    body = S.body
+    fwd = cfg.reach_from(guard_dst)
+    # blocks that can reach op_bb
+    back = {op_bb}
+    st = [op_bb]
+    while st:
+        b = st.pop()
+        for p in cfg.pred[b]:
+            if p not in back:
+                back.add(p)
+                st.append(p)
+    mid = (fwd & back) - {op_bb}
+    hits = []
+    for b in mid:
+        for s in body["bbs"][b]["s"]:
+            if s["k"] == "as" and s["p"].get("p"):
+                t = S.place(s["p"])
+                if t in places:
+                    hits.append((b, sym.term_str(t)))
+    return hits
+
+
+# ---- R17.5 rows ---------------------------------------------------------------------------------
+# function -> (description of the extent, predicate over (rels, S, fn) -> reason or None)
+
+def _need(rel):
+    def f(rels, S, fn):
+        return ("guard %s %s %s" % (sym.term_str(rel[1]), rel[0], sym.term_str(rel[2]))) if strip_bb(rel) in {strip_bb(r) for r in rels} else None
+    return f
+
+
+def _push_slice(rels, S, fn):
+    for (op, a, b) in rels:
+        if op == 'Le' and is_len_of(a, ('arg', 2)) and strip_bb(b) == ('bin', 'Sub', CAP, LEN):
+            return "guard words.len() <= capacity - len"
+    return None
+
+
+def _clone_from_slice(rels, S, fn):
+    for (op, a, b) in rels:
+        if op == 'Le' and is_len_of(a, ('arg', 2)) and strip_bb(b) == CAP:
+            return "guard capacity >= src.len()"
+    return None
+
+
+def _buffer_clone_from(rels, S, fn):
+    src_len = ('place', ('arg', 2), ('*', '.len'))
+    for (op, a, b) in rels:
+        if op == 'Le' and strip_bb(a) == src_len and strip_bb(b) == CAP:
+            return "guard self.capacity >= src.len"
+    return None
+
+
+def _reallocate_raw(rels, S, fn):
+    for (op, a, b) in rels:
+        if op == 'Le' and strip_bb(b) == ('arg', 2):
+            a2 = strip_bb(a)
+            if a2 == LEN or a2 == ('call', 'dashu_int::buffer::Buffer::len', (SELF,)):
+                return "guard capacity >= self.len()"
+    return None
+
+
+N = ('arg', 2)
+ROWS = {
+    "dashu_int::buffer::Buffer::push": ("write of 1 word at ptr+len", _need(('Lt', LEN, CAP)), [LEN, CAP]),
+    "dashu_int::buffer::Buffer::push_repeat": ("write of n words at ptr+len", _need(('Le', N, ('bin', 'Sub', CAP, LEN))), [CAP]),
+    "dashu_int::buffer::Buffer::push_zeros_front": ("move len words by n, write n words", _need(('Le', N, ('bin', 'Sub', CAP, LEN))), [LEN, CAP]),
+    "dashu_int::buffer::Buffer::push_slice": ("copy of words.len() words to ptr+len", _push_slice, [LEN, CAP]),
+    "dashu_int::buffer::Buffer::pop_zeros": ("reads stay inside [0, len)", _need(('Lt', ('const', 0, 'usize'), LEN)), []),
+    "dashu_int::buffer::Buffer::erase_front": ("move of len-n words from ptr+n", _need(('Le', N, LEN)), [LEN]),
+    "dashu_int::buffer::Buffer::lowest_dword": ("read of words 0 and 1", _need(('Le', ('const', 2, 'usize'), LEN)), [LEN]),
+    "dashu_int::buffer::Buffer::lowest_dword_mut": ("&mut of words 0 and 1", _need(('Le', ('const', 2, 'usize'), LEN)), [LEN]),
+    "dashu_int::buffer::Buffer::clone_from_slice": ("copy of src.len() words to ptr", _clone_from_slice, [CAP]),
+    "<dashu_int::buffer::Buffer as core::clone::Clone>::clone_from": ("copy of src.len words to ptr", _buffer_clone_from, [CAP]),
+    "dashu_int::buffer::Buffer::reallocate_raw": ("realloc to capacity words", _reallocate_raw, []),
+}
+RAW_OPS = {"core::ptr::write", "core::ptr::read", "core::ptr::copy", "core::ptr::copy_nonoverlapping",
+           "core::ptr::mut_ptr::<impl *mut T>::add", "core::ptr::mut_ptr::<impl *mut T>::sub",
+           "core::slice::raw::from_raw_parts", "core::slice::raw::from_raw_parts_mut", "alloc::alloc::realloc",
+           "core::ptr::mut_ptr::<impl *mut T>::write", "core::ptr::mut_ptr::<impl *mut T>::read",
+           "core::ptr::mut_ptr::<impl *mut T>::copy_from"}
+
+
+def raw_op_blocks(fn):
+    out = []
+    S = sym.Sym(fn)
+    for bb, t, f in mir.iter_calls(fn["mir"]):
+        if f and (f.get("rp") or f["p"]) in RAW_OPS:
+            out.append((bb, f.get("rp") or f["p"], t))
+    # raw derefs
+    for i, j, s in mir.iter_stmts(fn["mir"]):
+        found = []
+        def chk(p):
+            if any(e.get("raw") for e in p.get("p", [])):
+                found.append(p)
+        mir.walk_places(s, chk)
+        if found:
+            out.append((i, "rawderef", s))
+    return S, out
+
+
+def _r17_5(res, P, cfgname):
+    n = 0
+    for path, (extent, pred, stable) in ROWS.items():
+        fns = [f for f in P.fns("dashu_int") if f["p"] == path]
+        if not fns:
+            res.anchor("R17.5", cfgname, "fn " + path)
+            continue
+        fn = fns[0]
+        S, ops = raw_op_blocks(fn)
+        cfg = mir.cfg_of(fn["mir"])
+        if not ops:
+            res.anchor("R17.5", cfgname, "no raw operation left in " + path)
+            continue
+        for bb, opname, node in ops:
+            n += 1
+            key = "%s|%s" % (path, opname)
+            rels = rels_at(S, cfg, bb)
+            reason = pred(rels, S, fn)
+            if reason is None:
+                res.fail("R17.5", cfgname, key,
+                         "raw access `%s` in %s (%s) is not dominated by its release-surviving bound check; facts here: %s"
+                         % (opname, path, extent, sorted("%s %s %s" % (sym.term_str(a, 60), o, sym.term_str(b, 60)) for o, a, b in rels)[:6]),
+                         span_loc(node.get("sp", "")))
+                continue
+            res.ok("R17.5", cfgname, key, sample=dict(function=path, op=opname, extent=extent, discharge=reason))
+    # form (ii)/(iii) rows: structural equalities between the extent and the allocation / len field
+    n += _r17_5_struct(res, P, cfgname)
+    res.floor("R17.5", cfgname, n, 30, "raw accesses in Buffer")
+
+
+def _find(P, path, crate="dashu_int"):
+    for f in P.fns(crate):
+        if f["p"] == path:
+            return f
+    return None
+
+
+def _r17_5_struct(res, P, cfgname):
+    n = 0
+    # Deref / DerefMut: from_raw_parts(self.ptr.as_ptr(), self.len)
+    for path, callee in (("<dashu_int::buffer::Buffer as core::ops::deref::Deref>::deref", "core::slice::raw::from_raw_parts"),
+                         ("<dashu_int::buffer::Buffer as core::ops::deref::DerefMut>::deref_mut", "core::slice::raw::from_raw_parts_mut")):
+        fn = _find(P, path)
+        if fn is None:
+            res.anchor("R17.5", cfgname, "fn " + path)
+            continue
+        S = sym.Sym(fn)
+        hit = False
+        for bb, t, f in mir.iter_calls(fn["mir"]):
+            if f and (f.get("rp") or f["p"]) == callee:
+                hit = True
+                n += 1
+                a0, a1 = strip_bb(S.operand(t["a"][0])), strip_bb(S.operand(t["a"][1]))
+                ok = a1 == LEN and sym.contains(a0, lambda s: s == PTR)
+                key = "%s|%s(ptr, len)" % (path, callee)
+                if ok:
+                    res.ok("R17.5", cfgname, key, sample=dict(function=path, op=callee, extent="[0, self.len) relying on len <= capacity (R17.3 writer set)"))
+                else:
+                    res.fail("R17.5", cfgname, key, "%s in %s must take exactly (self.ptr, self.len); got (%s, %s)" % (callee, path, sym.term_str(a0), sym.term_str(a1)), span_loc(t["sp"]))
+        if not hit:
+            res.anchor("R17.5", cfgname, "call of %s in %s" % (callee, path))
+    # as_full_slice (zeroize): (ptr, capacity)
+    fn = _find(P, "dashu_int::buffer::Buffer::as_full_slice")
+    if fn is not None:
+        S = sym.Sym(fn)
+        for bb, t, f in mir.iter_calls(fn["mir"]):
+            if f and (f.get("rp") or f["p"]) == "core::slice::raw::from_raw_parts_mut":
+                n += 1
+                a1 = strip_bb(S.operand(t["a"][1]))
+                key = "dashu_int::buffer::Buffer::as_full_slice|from_raw_parts_mut(ptr, capacity)"
+                if a1 == CAP:
+                    res.ok("R17.5", cfgname, key)
+                else:
+                    res.fail("R17.5", cfgname, key, "as_full_slice must expose exactly self.capacity words, got %s" % sym.term_str(a1), span_loc(t["sp"]))
+    # Clone::clone: allocate(self.len) then copy self.len words
+    path = "<dashu_int::buffer::Buffer as core::clone::Clone>::clone"
+    fn = _find(P, path)
+    if fn is None:
+        res.anchor("R17.5", cfgname, "fn " + path)
+    else:
+        S = sym.Sym(fn)
+        alloc_arg = None
+        for bb, t, f in mir.iter_calls(fn["mir"]):
+            cp = f and (f.get("rp") or f["p"])
+            if cp == "dashu_int::buffer::Buffer::allocate":
+                alloc_arg = strip_bb(S.operand(t["a"][0]))
+        for bb, t, f in mir.iter_calls(fn["mir"]):
+            cp = f and (f.get("rp") or f["p"])
+            if cp == "core::ptr::copy_nonoverlapping":
+                n += 1
+                cnt = strip_bb(S.operand(t["a"][2]))
+                key = path + "|copy_nonoverlapping count == allocate arg"
+                if alloc_arg is not None and cnt == alloc_arg == LEN:
+                    res.ok("R17.5", cfgname, key, sample=dict(function=path, extent="copies self.len words into Buffer::allocate(self.len) (default_capacity(n) >= n)"))
+                else:
+                    res.fail("R17.5", cfgname, key, "Buffer::clone copies %s words into a buffer allocated for %s" % (sym.term_str(cnt), sym.term_str(alloc_arg) if alloc_arg else None), span_loc(t["sp"]))
+    # default_capacity(n) >= n: body is (n + n/8 + 2).min(MAX)  -- check the term shape has n as an addend
+    fn = _find(P, "dashu_int::buffer::Buffer::default_capacity")
+    if fn is None:
+        res.anchor("R17.5", cfgname, "fn default_capacity")
+    else:
+        S = sym.Sym(fn)
+        n += 1
+        ret = strip_bb(S.local(0))
+        txt = sym.term_str(ret, 400)
+
+        def addends(t):
+            t = sym.strip_casts(t)
+            if t[0] == 'bin' and t[1] in ('Add', 'AddWithOverflow', 'AddUnchecked'):
+                return addends(t[2]) + addends(t[3])
+            if t[0] == 'place' and t[2] == ('.0',) and t[1][0] == 'bin' and 'Add' in t[1][1]:
+                return addends(t[1][2]) + addends(t[1][3])
+            return [t]
+        ok = False
+        if ret[0] == 'call' and 'min' in ret[1]:
+            ad = addends(ret[2][0])
+            consts = [a[1] for a in ad if a[0] == 'const' and isinstance(a[1], int)]
+            ok = ('arg', 1) in ad and sum(consts) >= 2 and all(a == ('arg', 1) or a[0] == 'const' or (a[0] == 'bin' and a[1] == 'Div' and a[2] == ('arg', 1)) for a in ad)
+        key = "dashu_int::buffer::Buffer::default_capacity >= n + 2"
+        if ok:
+            res.ok("R17.5", cfgname, key, sample=dict(function="default_capacity", term=txt))
+        else:
+            res.fail("R17.5", cfgname, key, "default_capacity(n) is no longer of the form min(n + n/k + c, MAX) with c >= 2: %s" % txt, span_loc(fn["sp"]))
+    # into_boxed_slice: from_raw_parts_mut(new_ptr, me.len) where new_ptr = realloc(.., Layout::array(me.len).size())
+    path = "dashu_int::buffer::Buffer::into_boxed_slice"
+    fn = _find(P, path)
+    if fn is None:
+        res.anchor("R17.5", cfgname, "fn " + path)
+    else:
+        S = sym.Sym(fn)
+        cfg = mir.cfg_of(fn["mir"])
+        for bb, t, f in mir.iter_calls(fn["mir"]):
+            cp = f and (f.get("rp") or f["p"])
+            if cp == "core::slice::raw::from_raw_parts_mut":
+                n += 1
+                cnt = S.operand(t["a"][1])
+                ptr = S.operand(t["a"][0])
+                lay = [c for c in sym.calls_in(ptr) if c[1] == "alloc::alloc::realloc"]
+                key = path + "|from_raw_parts_mut len == realloc'd size"
+                ok = False
+                if lay:
+                    size = lay[0][2][2]
+                    arr = [c for c in sym.calls_in(size) if "Layout" in c[1] and "array" in c[1]]
+                    ok = bool(arr) and strip_bb(arr[0][2][0]) == strip_bb(cnt)
+                # the len == 0 early return (realloc with size 0 is UB)
+                rels = rels_at(S, cfg, bb)
+                nz = any(op == 'Ne' and strip_bb(b) == ('const', 0, 'usize') or (op == 'Ne' and strip_bb(a) == ('const', 0, 'usize')) for op, a, b in rels)
+                if ok and nz:
+                    res.ok("R17.5", cfgname, key, sample=dict(function=path, extent="slice of me.len words over a block realloc'd to Layout::array(me.len); len != 0 on this edge"))
+                else:
+                    res.fail("R17.5", cfgname, key, "into_boxed_slice: slice length %s must equal the reallocated size and be non-zero (same-size=%s, nonzero-guard=%s)" % (sym.term_str(cnt), ok, nz), span_loc(t["sp"]))
+    return n
+
+
+# ---- R17.6 ---------------------------------------------------------------------------------------
+DEBUG_ONLY = {
+    "dashu_int::primitive::highest_dword": 2,
+    "dashu_int::primitive::lowest_dword": 2,
+    "dashu_int::primitive::split_hi_word": 2,
+    "dashu_int::shift::shr_in_place_one_word": 1,
+}
+
+
+def _min_len_known(S, cfg, bb, arg_term, need, P, fn):
+    """is len(arg) >= need established at this call site by shape?"""
+    t = sym.strip_refs(arg_term) if arg_term[0] in ('ref', 'refmut') else arg_term
+    t0 = strip_bb(arg_term)
+    # (a) a RefLarge / Large binding or a Buffer deref: len >= 3 by the canonical-form invariant
+    txt = sym.term_str(arg_term, 600)
+    for s_ in sym.subterms(arg_term):
+        if isinstance(s_, tuple) and s_[0] == 'place':
+            if any(p in ('as:RefLarge', 'as:Large') for p in s_[2]):
+                return "binding of a RefLarge/Large variant (len >= 3 by R17.2/R17.3)"
+        if isinstance(s_, tuple) and s_[0] == 'call' and s_[1] in ("<dashu_int::buffer::Buffer as core::ops::deref::Deref>::deref", "<dashu_int::buffer::Buffer as core::ops::deref::DerefMut>::deref_mut"):
+            pass
+    # (b) explicit dominating length test on the same slice
+    for c in guards.constraints_at(S, cfg, bb):
+        if c[0] != 'unary':
+            continue
+        X = strip_bb(sym.strip_casts(c[1]))
+        if X[0] == 'un' and X[1] == 'PtrMetadata' or (X[0] == 'call' and X[1] == 'core::slice::<impl [T]>::len'):
+            inner = X[2] if X[0] == 'un' else X[2][0]
+            if strip_bb(sym.strip_refs(inner) if inner[0] in ('ref', 'refmut') else inner) == strip_bb(t) or strip_bb(inner) == t0:
+                try:
+                    if not any(c[2](v) for v in range(0, need)):
+                        return "dominating length test excludes len < %d" % need
+                except Exception:
+                    pass
+    return None
+
+
+def _r17_6(res, P, cfgname):
+    sites = 0
+    assumed = 0
+    for fn in P.fns("dashu_int"):
+        S = None
+        for bb, t, f in mir.iter_calls(fn["mir"]):
+            cp = f and (f.get("rp") or f["p"])
+            if cp not in DEBUG_ONLY:
+                continue
+            S = S or sym.Sym(fn)
+            cfg = mir.cfg_of(fn["mir"])
+            sites += 1
+            arg = S.operand(t["a"][0])
+            why = _min_len_known(S, cfg, bb, arg, DEBUG_ONLY[cp], P, fn)
+            key = "%s called in %s" % (cp.rsplit("::", 1)[1], fn["p"])
+            if why:
+                res.ok("R17.6", cfgname, key, sample=dict(caller=fn["p"], callee=cp, discharge=why))
+            else:
+                assumed += 1
+                res.ok("R17.6", cfgname, key + "|assumed", nontrivial=False)
+                res.assume("R17.6: %s called from %s with an argument whose minimum length depends on slice arithmetic (debug_assert only) — assumed, not decided" % (cp, fn["p"]))
+    res.floor("R17.6", cfgname, sites, 20, "call sites of debug-only-guarded unsafe helpers")
+    res.note("R17.6[%s]: %d call sites, %d discharged by shape, %d assumed" % (cfgname, sites, sites - assumed, assumed))
+    # the helpers themselves must keep their debug assertion (in dbg) -- and nothing else must call
+    # get_unchecked / unreachable_unchecked outside the reviewed table (R17.1 covers that)
+
+
+# ---- R17.7 sign typestate -------------------------------------------------------------------------
+UBIG = "dashu_int::ubig::UBig"
+IBIG = "dashu_int::ibig::IBig"
+
+from . import typestate
+
+
+def strip_ref_ty(ty):
+    while ty.startswith("&"):
+        ty = ty[1:].lstrip()
+        if ty.startswith("'"):
+            ty = ty.split(" ", 1)[1] if " " in ty else ty
+        if ty.startswith("mut "):
+            ty = ty[4:]
+    return ty
+
+
+def is_sign_const(ctx, op, variant):
+    """operand is the constant Sign::<variant> (a literal constant or a single-def unit aggregate)"""
+    c = op.get("c")
+    if c is not None:
+        return variant in str(c.get("s"))
+    l = mir.op_local(op)
+    if l is None:
+        return False
+    d = ctx.du.single_def(l)
+    if d is None or d[1] == 't':
+        return False
+    rv = d[2].get("rv", {})
+    if rv.get("k") == "agg" and rv.get("adt") == "dashu_base::sign::Sign":
+        return rv.get("vn") == variant
+    if rv.get("k") == "use":
+        return is_sign_const(ctx, rv["a"], variant)
+    return False
+
+
+SIGN_FNS = {"dashu_int::ibig::IBig::sign", "dashu_int::repr::Repr::sign"}
+
+
+def positive_edge(fn, bb, root_local):
+    """block bb is dominated by the `Sign::Positive` edge of a match on sign() of the given local"""
+    S = sym.Sym(fn)
+    cfg = mir.cfg_of(fn["mir"])
+    for c in guards.constraints_at(S, cfg, bb):
+        if c[0] != 'unary':
+            continue
+        X = sym.strip_casts(c[1])
+        if X[0] == 'discr':
+            X = X[1]
+        if X[0] == 'call' and X[1] in SIGN_FNS and X[2]:
+            r = X[2][0]
+            while isinstance(r, tuple) and r[0] in ('ref', 'refmut', 'place'):
+                r = r[1]
+            if r == ('arg', root_local) or r == ('var', root_local):
+                try:
+                    if c[2](0) and not c[2](1):
+                        return True
+                except Exception:
+                    pass
+    return False
+
+
+class SignDomain(typestate.Domain):
+    """good state: the integer Repr is non-negative"""
+    name = "sign"
+    NONNEG = {
+        "dashu_int::repr::Repr::from_word", "dashu_int::repr::Repr::from_dword", "dashu_int::repr::Repr::from_buffer",
+        "dashu_int::repr::Repr::from_ref", "dashu_int::repr::Repr::zero", "dashu_int::repr::Repr::one", "dashu_int::repr::Repr::ones",
+        "dashu_int::repr::Repr::from_static_words",
+        "dashu_int::ubig::UBig::into_repr", "dashu_int::ubig::UBig::repr",
+    }
+    SIGNED = {"dashu_int::repr::Repr::neg", "dashu_int::repr::Repr::neg_one", "dashu_int::repr::Repr::signum",
+              "dashu_int::ibig::IBig::into_repr", "dashu_int::ibig::IBig::as_sign_repr"}
+
+    def type_rule(self, ty, proj):
+        t = strip_ref_ty(ty)
+        if t == UBIG and tuple(proj) == ('.0',):
+            return True
+        if t == IBIG and tuple(proj) == ('.0',):
+            return False
+        return None
+
+    def const_rule(self, c, proj):
+        # named constants of type UBig are non-negative by their own construction sites
+        if strip_ref_ty(c.get("ty", "")) == UBIG and tuple(proj) == ('.0',):
+            return typestate.GOOD
+        return None
+
+    def call_rule(self, ts, ctx, path, fref, args, proj, term):
+        if path in self.NONNEG:
+            return typestate.GOOD
+        if path in self.SIGNED:
+            return (False, "result of %s carries a sign" % path)
+        if path == "dashu_int::repr::Repr::with_sign":
+            if is_sign_const(ctx, args[1], "Positive"):
+                return typestate.GOOD
+            return (False, "with_sign(_, <non-constant or Negative>)")
+        if path == "<dashu_int::repr::Repr as core::clone::Clone>::clone":
+            return ts.operand(ctx, args[0], proj)
+        return None
+
+
+def _r17_7(res, P, cfgname):
+    ts = typestate.TS(P, SignDomain())
+    n = 0
+    for fn in P.fns():
+        if fn["crate"] == "dashu_macros":
+            continue
+        ctx = None
+        for i, j, s in mir.iter_stmts(fn["mir"]):
+            if s["k"] != "as":
+                continue
+            rv = s["rv"]
+            if rv["k"] == "agg" and rv["ak"] == "adt" and rv["adt"] == UBIG:
+                ctx = ctx or ts.ctx(fn)
+                n += 1
+                ok, why = ts.operand(ctx, rv["ops"][0], ())
+                mac = [m for m in mir.span_macros(s["sp"]) if not m.startswith("desugar")]
+                fam = mac[-1] if mac else "-"
+                key = "UBig(..) in %s [%s]" % (fn["p"], fam)
+                if not ok:
+                    # guard-sensitive refinement: `x.0` of an IBig on the Sign::Positive edge of
+                    # a match on x.sign()
+                    pl = mir.op_place(rv["ops"][0])
+                    src = None
+                    if pl is not None and not pl.get("p"):
+                        d = ctx.du.single_def(pl["l"])
+                        if d and d[1] != 't' and d[2]["rv"]["k"] == "use":
+                            src = mir.op_place(d[2]["rv"]["a"])
+                    elif pl is not None:
+                        src = pl
+                    if src is not None and [e.get("n") for e in src.get("p", []) if e["k"] == "f"] == ["0"] and positive_edge(fn, i, src["l"]):
+                        ok, why = True, "on the Sign::Positive edge of a match on sign()"
+                        key += "|positive-edge"
+                if ok:
+                    res.ok("R17.7", cfgname, key, sample=dict(function=fn["p"], macro=fam, at=span_loc(s["sp"])))
+                else:
+                    res.fail("R17.7", cfgname, key,
+                             "UBig(..) built in %s from a Repr that is not provably non-negative (%s); as_typed()/into_typed() on a negative capacity is unreachable!()/UB-adjacent"
+                             % (fn["p"], why), span_loc(s["sp"]))
+    res.floor("R17.7", cfgname, n, 150, "UBig(..) constructions")
+    # zero is never negative: capacity-negating writes are on the !is_zero() edge
+    for path in ("dashu_int::repr::Repr::with_sign", "dashu_int::repr::Repr::neg"):
+        fn = _find(P, path)
+        if fn is None:
+            res.anchor("R17.7", cfgname, "fn " + path)
+            continue
+        S = sym.Sym(fn)
+        cfg = mir.cfg_of(fn["mir"])
+        hit = False
+        for i, j, s in mir.iter_stmts(fn["mir"]):
+            if s["k"] == "as" and any(e.get("n") == "capacity" for e in s["p"].get("p", [])):
+                hit = True
+                ok = False
+                for c in guards.constraints_at(S, cfg, i):
+                    if c[0] == 'bool' and isinstance(c[1], tuple) and c[1][0] == 'call' and c[1][1] == "dashu_int::repr::Repr::is_zero" and c[2] is False:
+                        ok = True
+                key = "%s negates capacity only when !is_zero()" % path
+                if ok:
+                    res.ok("R17.7", cfgname, key, sample=dict(function=path, guard="!self.is_zero() dominates the capacity write"))
+                else:
+                    res.fail("R17.7", cfgname, key, "%s writes `capacity` without the !is_zero() guard: zero could become negative" % path, span_loc(s["sp"]))
+        if not hit:
+            res.anchor("R17.7", cfgname, "capacity write in " + path)
+
+
+# ---- R17.9 ---------------------------------------------------------------------------------------
+
+def _r17_9(res, P, cfgname):
+    path = "dashu_int::memory::Memory::<'_>::try_find_memory_for_slice"
+    fn = _find(P, path)
+    if fn is None:
+        res.anchor("R17.9", cfgname, "fn " + path)
+        return
+    S = sym.Sym(fn)
+    cfg = mir.cfg_of(fn["mir"])
+    # (a) no unchecked +,* on usize: every Add/Mul in the body is checked_* (calls) — raw BinaryOp Add/Mul
+    bad = []
+    for i, j, s in mir.iter_stmts(fn["mir"]):
+        if s["k"] == "as" and s["rv"]["k"] == "bin" and s["rv"]["op"] in ("Add", "Mul", "AddUnchecked", "MulUnchecked", "AddWithOverflow", "MulWithOverflow"):
+            bad.append(span_loc(s["sp"]))
+    key = path + "|checked arithmetic only"
+    if bad:
+        res.fail("R17.9", cfgname, key, "unchecked +/* on addresses in try_find_memory_for_slice at %s" % bad, bad[0])
+    else:
+        res.ok("R17.9", cfgname, key)
+    # (b) Some(..) only on the slice_end <= end edge
+    n_some = 0
+    for i, j, s in mir.iter_stmts(fn["mir"]):
+        if s["k"] == "as" and s["rv"]["k"] == "agg" and s["rv"].get("vn") == "Some" and s["p"]["l"] == 0:
+            n_some += 1
+            rels = rels_at(S, cfg, i)
+            ok = False
+            for op, a, b in rels:
+                if op == 'Le' and sym.contains(a, lambda x: isinstance(x, tuple) and x[0] == 'call' and 'checked_add' in x[1]) \
+                        and sym.contains(b, lambda x: isinstance(x, tuple) and x[0] == 'place' and '.end' in x[2]):
+                    ok = True
+            key = path + "|Some only when slice_end <= end"
+            if ok:
+                res.ok("R17.9", cfgname, key, sample=dict(function=path, guard="slice_end <= self.end dominates Some(..)"))
+            else:
+                res.fail("R17.9", cfgname, key, "try_find_memory_for_slice returns Some(..) without the `slice_end <= end` guard", span_loc(s["sp"]))
+    if n_some == 0:
+        res.anchor("R17.9", cfgname, "Some(..) return in " + path)
+    # (c) allocate_slice_initialize: from_raw_parts_mut(ptr, n) with ptr from try_find_memory_for_slice, n the same n
+    path2 = "dashu_int::memory::Memory::<'_>::allocate_slice_initialize"
+    fn = _find(P, path2)
+    if fn is None:
+        res.anchor("R17.9", cfgname, "fn " + path2)
+        return
+    S = sym.Sym(fn)
+    hit = False
+    for bb, t, f in mir.iter_calls(fn["mir"]):
+        cp = f and (f.get("rp") or f["p"])
+        if cp == "core::slice::raw::from_raw_parts_mut":
+            hit = True
+            ptr = S.operand(t["a"][0])
+            cnt = strip_bb(S.operand(t["a"][1]))
+            finds = [c for c in sym.calls_in(ptr) if c[1] == path]
+            ok = bool(finds) and strip_bb(finds[0][2][1]) == cnt
+            key = path2 + "|from_raw_parts_mut(ptr, n) from try_find_memory_for_slice(n)"
+            if ok:
+                res.ok("R17.9", cfgname, key, sample=dict(function=path2, ptr=sym.term_str(ptr, 160), n=sym.term_str(cnt)))
+            else:
+                res.fail("R17.9", cfgname, key, "allocate_slice_initialize builds a slice whose pointer/length do not both come from try_find_memory_for_slice(n)", span_loc(t["sp"]))
+    if not hit:
+        res.anchor("R17.9", cfgname, "from_raw_parts_mut in " + path2)
+    # (d) the init closures write only indices < n: ptr.add(i) with i from enumerate()/range bounded by n
+    for name, bound in (("allocate_slice_fill", "range 0..n"), ("allocate_slice_copy", "enumerate over source (len == n)"),
+                        ("allocate_slice_copy_fill", "enumerate over source, range source.len()..n, n >= source.len() asserted")):
+        cl = _find(P, "dashu_int::memory::Memory::<'_>::%s::{closure#0}" % name)
+        outer = _find(P, "dashu_int::memory::Memory::<'_>::%s" % name)
+        if cl is None or outer is None:
+            res.anchor("R17.9", cfgname, "closure of " + name)
+            continue
+        S = sym.Sym(cl)
+        ok = True
+        for bb, t, f in mir.iter_calls(cl["mir"]):
+            cp = f and (f.get("rp") or f["p"])
+            if cp == "core::ptr::mut_ptr::<impl *mut T>::add":
+                idx = S.operand(t["a"][1])
+                # index must come from an iterator's next() (Range or Enumerate), never from arithmetic
+                good = sym.contains(idx, lambda x: isinstance(x, tuple) and x[0] == 'call' and x[1].endswith("::next"))
+                if not good:
+                    ok = False
+        key = "Memory::%s closure indices iterator-bounded" % name
+        # the size passed to allocate_slice_initialize must be the iterator bound
+        So = sym.Sym(outer)
+        size_ok = False
+        for bb, t, f in mir.iter_calls(outer["mir"]):
+            cp = f and (f.get("rp") or f["p"])
+            if cp == path2:
+                size = strip_bb(So.operand(t["a"][1]))
+                if name == "allocate_slice_copy":
+                    size_ok = is_len_of(size, ('arg', 2))
+                else:
+                    size_ok = size == ('arg', 2)
+        if name == "allocate_slice_copy_fill":
+            cfg = mir.cfg_of(outer["mir"])
+            # assert!(n >= source.len()) dominates the call
+            for bb, t, f in mir.iter_calls(outer["mir"]):
+                cp = f and (f.get("rp") or f["p"])
+                if cp == path2:
+                    rels = rels_at(So, cfg, bb)
+                    size_ok = size_ok and any(op == 'Le' and is_len_of(a, ('arg', 3)) and strip_bb(b) == ('arg', 2) for op, a, b in rels)
+        if ok and size_ok:
+            res.ok("R17.9", cfgname, key, sample=dict(function=name, bound=bound))
+        else:
+            res.fail("R17.9", cfgname, key, "Memory::%s: init closure index not iterator-bounded by the allocated size (idx-ok=%s size-ok=%s)" % (name, ok, size_ok), span_loc(cl["sp"]))
+
+
 def run(res, programs, tier):
-    pass
+    res.rule("R17.5", "every raw read/write/copy in Buffer is dominated by a release-surviving bound check implying its extent, or its extent equals the just-allocated size / the len field")
+    res.rule("R17.6", "unsafe helpers guarded only by debug_assert! (highest_dword, lowest_dword, split_hi_word, shr_in_place_one_word): obligation pushed to call sites; shape-discharged or listed as assumed")
+    res.rule("R17.7", "every UBig(..) is built from a Repr that is non-negative on all reaching definitions; capacity is negated only when !is_zero()")
+    res.rule("R17.9", "bump allocator: checked address arithmetic, Some only under slice_end <= end, slices built only from that result, init closures iterator-bounded")
+    for P in programs:
+        if "dashu_int" not in P.units:
+            continue
+        _r17_5(res, P, P.name)
+        _r17_6(res, P, P.name)
+        _r17_7(res, P, P.name)
+        _r17_9(res, P, P.name)
